@@ -558,12 +558,18 @@ def rule_read_loops(ctx, prog, rid, fns, control=False):
                         if isinstance(l, dict) and l.get('k') == 'var':
                             resvars.add(l['n'])
 
+            bytewise = e.get('name') in ('fgetc', 'getc')
+
             def observes(atom):
-                if mentions_call(atom, 'ferror'):
+                if mentions_call(atom, 'ferror') or (bytewise and mentions_call(atom, 'feof')):
                     return True
-                if any(y.get('k') == 'call' and y.get('name') == e.get('name') for y in walk(atom)):
-                    return True
-                return any(mentions_var(atom, v) for v in resvars)
+                about = any(y.get('k') == 'call' and y.get('name') == e.get('name') for y in walk(atom)) or \
+                    any(mentions_var(atom, v) for v in resvars)
+                if about and bytewise:
+                    # fgetc() returns a byte or EOF: comparing it with some byte says nothing about the end of the file
+                    return any(const_value(y) == -1 for y in walk(atom) if isinstance(y, dict)) or \
+                        any(y.get('k') == 'bin' and y.get('op') == '<' and const_value(y.get('r')) == 0 for y in walk(atom))
+                return about
 
             def edge_ok(b, i, s2):
                 return not any(observes(atom) for k, pol, atom in f.edge_facts(b, i))
@@ -925,6 +931,69 @@ def run(ctx):
                       '`%s` in %s is reached only where %s is known non-empty (%s)' % ((u.get('src') or '')[:40], f.name, v, why))
     ctx.check('C13.N2', n2b >= 8, 'first-element accesses', 'first-element:sites', 'src', '%d accesses examined' % n2b)
     ctx.floor('C13.N2', 10)
+
+    # ---- N3: a vector is not appended to while it is walked in place ---------------------------------
+    R('C13.N3', 'N', 'Node::out_edges_ grows when a dyndep file is loaded (DyndepLoader::UpdateEdge -> Node::AddOutEdge for every '
+      'discovered input, and a dyndep file may name any node, including the one being processed): no loop that walks '
+      'a node\'s out_edges_ in place (iterator / range-for over the member) reaches an appender from its body; loops over a '
+      'copy are fine')
+    from rules import loops_over as _loops_over
+    OE = 'Node::out_edges_'
+    appenders = {f.id for f, e, kind, rhs in field_writes(prog, OE)
+                 if kind in ('push_back', 'emplace_back', 'insert', 'erase', 'clear', 'resize', 'pop_back', 'assign', 'swap')}
+    ctx.check('C13.N3', bool(appenders), OE, 'out_edges_:no-appender', 'src/graph.h', 'appenders of out_edges_: %s' % sorted(prog.functions[a].name for a in appenders))
+    _reach = {}
+
+    def reaches_appender(fid):
+        if fid in _reach:
+            return _reach[fid]
+        _reach[fid] = False
+        r = fid in appenders or any(reaches_appender(t) for t in prog.callees(fid) if t in prog.functions)
+        _reach[fid] = r
+        return r
+
+    def is_oe(d):
+        d = strip(d)
+        return isinstance(d, dict) and ((d.get('k') == 'mem' and d['n'] == OE) or (d.get('k') == 'call' and d.get('name') == 'Node::out_edges'))
+    n3 = 0
+    for f in fns:
+        dom = f.dominators()
+        for l in _loops_over(f, is_oe):
+            if l.get('style') not in ('iterator', 'range'):
+                continue
+            # a loop over a by-value local copy of the vector does not walk the member
+            def copied(d, depth=0):
+                d = strip(d)
+                if not isinstance(d, dict) or depth > 4:
+                    return False
+                if d.get('k') == 'call' and lastname(d.get('name') or '') in ('begin', 'end', 'cbegin', 'cend'):
+                    return copied(d.get('recv'), depth + 1)
+                if d.get('k') == 'var' and d.get('vk') == 'local':
+                    ds = [x for x in f.events('decl') if x['n'] == d['n']]
+                    ty = ds[0].get('ty') or '' if len(ds) == 1 else ''
+                    if len(ds) == 1 and 'vector' in ty and 'iterator' not in ty and '&' not in ty and not d['n'].startswith('__'):
+                        return True         # `std::vector<Edge*> copy = node->out_edges();`
+                    if len(ds) == 1 and ds[0].get('init') is not None:
+                        return copied(ds[0]['init'], depth + 1)
+                return False
+            c = strip(f.eff_cond(l['header']))
+            operands = ([c.get('recv')] if isinstance(c, dict) and 'recv' in c else []) + list((c.get('args') or []) if isinstance(c, dict) else []) + \
+                ([c.get('l'), c.get('r')] if isinstance(c, dict) and c.get('k') == 'bin' else [])
+            if any(copied(o) for o in operands):
+                continue
+            n3 += 1
+            body = {b for b in (f.reachable_from(l['body']) | {l['body']})
+                    if l['header'] in f.reachable_from(b) and l['header'] in dom.get(b, ())}
+            hit = None
+            for b in sorted(body):
+                for e in f.blocks[b]['ev']:
+                    if e['k'] == 'call' and any(reaches_appender(t) for t in prog.call_targets(e) if t in prog.functions):
+                        hit = hit or e
+            ctx.check('C13.N3', hit is None, f.name, 'out_edges_:appended-while-iterated', 'src/%s:%s' % (f.file, l['line']),
+                      'the loop over out_edges_ in %s cannot reach Node::AddOutEdge%s' % (
+                          f.name, '' if hit is None else ' (through `%s`)' % (hit.get('src') or hit.get('name') or '')[:50]))
+    ctx.check('C13.N3', n3 >= 3, OE, 'out_edges_:loops', 'src', '%d in-place loops over out_edges_ examined' % n3)
+    ctx.floor('C13.N3', 4)
 
     # ---- E1: exceptions --------------------------------------------------------------------------------
     R('C13.E1', 'E', 'ninja catches nothing: std::get<T> on the result variant is guarded by the matching '
